@@ -31,14 +31,9 @@ func VHarness_C05_window() {
 	vHavocProtocol(&p)
 	from, until := VNondetI64("from"), VNondetI64("until")
 	anchor := VNondetU64("anchor")
-	neg := VBound("negativeFrom", 0) == 1
+	// signed window values of either sign (a negative anchorFrom / anchorUntil is simply a window in the past)
 	lim := int64(1) << 62
-	VAssume(VAnd(from < lim, until >= 0, until < lim, anchor < uint64(lim), p.MaxOperationTimeDelta < uint64(lim)))
-	if neg {
-		VAssume(from > -lim)
-	} else {
-		VAssume(from >= 0)
-	}
+	VAssume(VAnd(from > -lim, from < lim, until > -lim, until < lim, anchor < uint64(lim), p.MaxOperationTimeDelta < uint64(lim)))
 	a := &Applier{Protocol: p}
 	got := a.verifyAnchoringTimeRange(from, until, anchor) == nil
 	want := VOr(VAnd(from == 0, until == 0),
